@@ -119,12 +119,315 @@ theorem CI.nested {p : PP} (h : CI p) : CI ({ buf := p.buf, override := p.overri
 theorem CI.handBack {p : PP} (h : CI p) {b : Buffer} (hb : Clean b) : CI { p with buf := b.setMode p.buf.mode } :=
   ⟨clean_setMode hb _, by show (b.setMode p.buf.mode).mode ≠ _; rw [setMode_mode]; exact h.mode⟩
 
-/-- A clean format: at every position, the literal text up to the next `%` ends in a complete
-character (every valid UTF-8 format is clean: `%` is ASCII). Closed under suffixes by definition. -/
-def FmtCl (f : List Byte) : Prop := ∀ s, s <:+ f → EndsRune (s.takeWhile (· ≠ 0x25))
+/-! ### Valid UTF-8 formats: every parse position is a character boundary -/
 
-theorem FmtCl.suffix {f g : List Byte} (h : FmtCl f) (hg : g <:+ f) : FmtCl g := fun s hs => h s (List.IsSuffix.trans hs hg)
-theorem FmtCl.lit {f : List Byte} (h : FmtCl f) : EndsRune (f.takeWhile (· ≠ 0x25)) := h f (List.suffix_refl _)
+
+theorem not_ascii_of_lead : ∀ c : Byte, c < 0x80 → c ≥ 0xC2 → False := by
+  apply byte_forall; decide +kernel
+theorem not_ascii_of_cont : ∀ c : Byte, c < 0x80 → 0x80 ≤ c → False := by
+  apply byte_forall; decide +kernel
+
+/-- A complete character that starts with an ASCII byte is that byte. -/
+theorem valid_head_ascii {c : Byte} {t : List Byte} (h : validRuneB (c :: t) = true) (hc : c < 0x80) : t = [] := by
+  rcases valid_cases h with ⟨a, he⟩ | ⟨a, b, he⟩ | ⟨a, b, c', he⟩ | ⟨a, b, c', d, he⟩
+  · cases he; rfl
+  · cases he; exact (not_ascii_of_lead _ hc (valid2 h).1).elim
+  · cases he; exact (not_ascii_of_lead _ hc (valid3 h).1).elim
+  · cases he; exact (not_ascii_of_lead _ hc (valid4 h).1).elim
+
+/-- No byte of a multi-byte character is ASCII. -/
+theorem valid_no_ascii {r : List Byte} (h : validRuneB r = true) (h2 : 2 ≤ r.length) : ∀ b ∈ r, ¬ b < 0x80 := by
+  rcases valid_cases h with ⟨a, he⟩ | ⟨a, b, he⟩ | ⟨a, b, c', he⟩ | ⟨a, b, c', d, he⟩
+  · subst he; simp at h2
+  · subst he
+    obtain ⟨ha, hb, _, _⟩ := valid2 h
+    intro x hx hlt
+    simp only [List.mem_cons, List.mem_nil_iff, or_false] at hx
+    rcases hx with rfl | rfl
+    · exact not_ascii_of_lead _ hlt ha
+    · exact not_ascii_of_cont _ hlt hb
+  · subst he
+    obtain ⟨ha, hb, _, hc, _, _⟩ := valid3 h
+    intro x hx hlt
+    simp only [List.mem_cons, List.mem_nil_iff, or_false] at hx
+    rcases hx with rfl | rfl | rfl
+    · exact not_ascii_of_lead _ hlt ha
+    · exact not_ascii_of_cont _ hlt hb
+    · exact not_ascii_of_cont _ hlt hc
+  · subst he
+    obtain ⟨ha, hb, _, hc, _, hd, _, _⟩ := valid4 h
+    intro x hx hlt
+    simp only [List.mem_cons, List.mem_nil_iff, or_false] at hx
+    rcases hx with rfl | rfl | rfl | rfl
+    · exact not_ascii_of_lead _ hlt ha
+    · exact not_ascii_of_cont _ hlt hb
+    · exact not_ascii_of_cont _ hlt hc
+    · exact not_ascii_of_cont _ hlt hd
+
+/-- **What follows an ASCII byte in a valid UTF-8 string is valid UTF-8.** -/
+theorem utf8_after_ascii : ∀ (l : List Byte), Utf8 l → ∀ (a : List Byte) (c : Byte) (b : List Byte),
+    l = a ++ c :: b → c < 0x80 → Utf8 b := by
+  intro l h
+  induction h with
+  | nil => intro a c b he; simp at he
+  | cons r p hr hp ih =>
+    intro a c b he hc
+    -- where does the split fall?
+    rcases List.append_eq_append_iff.mp he with ⟨a', h1, h2⟩ | ⟨c', h1, h2⟩
+    · -- r ++ a' = a, p = a' ++ c :: b : the ASCII byte is in p
+      exact ih a' c b h2 hc
+    · -- a ++ c' = r, c :: b = c' ++ p : the ASCII byte is in r or starts p
+      cases c' with
+      | nil =>
+        simp only [List.nil_append] at h2
+        exact ih [] c b (by simpa using h2.symm) hc
+      | cons x xs =>
+        simp only [List.cons_append, List.cons.injEq] at h2
+        obtain ⟨rfl, hb⟩ := h2
+        -- r = a ++ c :: xs is a complete character containing the ASCII byte c
+        have hr' : validRuneB (a ++ c :: xs) = true := by rw [← h1]; exact hr
+        by_cases hl : 2 ≤ (a ++ c :: xs).length
+        · exact absurd hc (valid_no_ascii hr' hl c (by simp))
+        · have : a = [] ∧ xs = [] := by
+            cases a <;> cases xs <;> simp_all <;> omega
+          obtain ⟨rfl, rfl⟩ := this
+          simp only [List.nil_append] at hb
+          rw [hb]; exact hp
+
+theorem utf8_tail_ascii {c : Byte} {r : List Byte} (h : Utf8 (c :: r)) (hc : c < 0x80) : Utf8 r :=
+  utf8_after_ascii _ h [] c r rfl hc
+
+
+
+theorem decodeRune_prefix2 {a b : Byte} (h : validRuneB [a, b] = true) (p : List Byte) : decodeRune (a :: b :: p) = (false, 2) := by
+  simp only [validRuneB, Bool.and_eq_true, decide_eq_true_eq] at h
+  obtain ⟨ha, h2⟩ := h
+  split at h2
+  · rename_i lo hi hl
+    simp only [Bool.and_eq_true, decide_eq_true_eq] at h2
+    have hna : ¬ a < 0x80 := by simpa using ha
+    have n1 : ¬ (p.length + 1 + 1 < 2) := by omega
+    have n2 : ¬ (b < lo ∨ hi < b) := by
+      intro h; rcases h with h | h
+      · exact absurd h (UInt8.not_lt.mpr h2.1)
+      · exact absurd h (UInt8.not_lt.mpr h2.2)
+    simp [decodeRune, hna, hl, n1, n2]
+  · cases h2
+
+theorem decodeRune_prefix3 {a b c : Byte} (h : validRuneB [a, b, c] = true) (p : List Byte) : decodeRune (a :: b :: c :: p) = (false, 3) := by
+  simp only [validRuneB, Bool.and_eq_true, decide_eq_true_eq] at h
+  obtain ⟨ha, h2⟩ := h
+  split at h2
+  · rename_i lo hi hl
+    simp only [Bool.and_eq_true, decide_eq_true_eq] at h2
+    obtain ⟨⟨h21, h22⟩, hc⟩ := h2
+    have hna : ¬ a < 0x80 := by simpa using ha
+    have n1 : ¬ (p.length + 1 + 1 + 1 < 3) := by omega
+    have n2 : ¬ (b < lo ∨ hi < b) := by
+      intro h; rcases h with h | h
+      · exact absurd h (UInt8.not_lt.mpr h21)
+      · exact absurd h (UInt8.not_lt.mpr h22)
+    simp [decodeRune, hna, hl, n1, n2, hc]
+  · cases h2
+
+theorem decodeRune_prefix4 {a b c d : Byte} (h : validRuneB [a, b, c, d] = true) (p : List Byte) :
+    decodeRune (a :: b :: c :: d :: p) = (false, 4) := by
+  simp only [validRuneB, Bool.and_eq_true, decide_eq_true_eq] at h
+  obtain ⟨ha, h2⟩ := h
+  split at h2
+  · rename_i lo hi hl
+    simp only [Bool.and_eq_true, decide_eq_true_eq] at h2
+    obtain ⟨⟨⟨h21, h22⟩, hc⟩, hd⟩ := h2
+    have hna : ¬ a < 0x80 := by simpa using ha
+    have n1 : ¬ (p.length + 1 + 1 + 1 + 1 < 4) := by omega
+    have n2 : ¬ (b < lo ∨ hi < b) := by
+      intro h; rcases h with h | h
+      · exact absurd h (UInt8.not_lt.mpr h21)
+      · exact absurd h (UInt8.not_lt.mpr h22)
+    simp [decodeRune, hna, hl, n1, n2, hc, hd]
+  · cases h2
+
+/-- The verb decoder consumes exactly one character of a valid UTF-8 string. -/
+theorem decodeVerb_utf8 : ∀ (s : List Byte), Utf8 s → ∀ (v : Nat) (r' : List Byte), decodeVerb s = some (v, r') → Utf8 r' := by
+  intro s h
+  cases h with
+  | nil => intro v r' hd; simp [decodeVerb] at hd
+  | cons r p hr hp =>
+    intro v r' hd
+    rcases valid_cases hr with ⟨a, rfl⟩ | ⟨a, b, rfl⟩ | ⟨a, b, c, rfl⟩ | ⟨a, b, c, d, rfl⟩
+    · have ha : a < 0x80 := by simpa [validRuneB] using hr
+      simp only [List.cons_append, List.nil_append, decodeVerb, ha, if_true, Option.some.injEq, Prod.mk.injEq] at hd
+      rw [← hd.2]; exact hp
+    · have hna : ¬ a < 0x80 := fun hlt => not_ascii_of_lead _ hlt (valid2 hr).1
+      simp only [List.cons_append, List.nil_append, decodeVerb, hna, if_false, decodeRune_prefix2 hr p,
+        Option.some.injEq, Prod.mk.injEq] at hd
+      rw [← hd.2]; exact hp
+    · have hna : ¬ a < 0x80 := fun hlt => not_ascii_of_lead _ hlt (valid3 hr).1
+      simp only [List.cons_append, List.nil_append, decodeVerb, hna, if_false, decodeRune_prefix3 hr p,
+        Option.some.injEq, Prod.mk.injEq] at hd
+      rw [← hd.2]; exact hp
+    · have hna : ¬ a < 0x80 := fun hlt => not_ascii_of_lead _ hlt (valid4 hr).1
+      simp only [List.cons_append, List.nil_append, decodeVerb, hna, if_false, decodeRune_prefix4 hr p,
+        Option.some.injEq, Prod.mk.injEq] at hd
+      rw [← hd.2]; exact hp
+
+theorem takeWhile_append_all {α : Type} (pr : α → Bool) (r p : List α) (h : ∀ b ∈ r, pr b = true) :
+    (r ++ p).takeWhile pr = r ++ p.takeWhile pr ∧ (r ++ p).dropWhile pr = p.dropWhile pr := by
+  induction r with
+  | nil => simp
+  | cons x xs ih =>
+    have hx := h x (by simp)
+    have := ih (fun b hb => h b (by simp [hb]))
+    simp [List.takeWhile, List.dropWhile, hx, this.1, this.2]
+
+/-- Splitting a valid UTF-8 string at the first `%` gives two valid UTF-8 strings. -/
+theorem utf8_split_percent : ∀ (f : List Byte), Utf8 f → Utf8 (f.takeWhile (· ≠ 0x25)) ∧ Utf8 (f.dropWhile (· ≠ 0x25)) := by
+  intro f h
+  induction h with
+  | nil => exact ⟨.nil, .nil⟩
+  | cons r p hr hp ih =>
+    by_cases hmem : (0x25 : Byte) ∈ r
+    · -- some byte of `r` is `%`: `r` is that single ASCII byte
+      have hb := hmem
+      have hlen : ¬ 2 ≤ r.length := fun h2 => valid_no_ascii hr h2 _ hb (by decide)
+      have hr1 : r = [0x25] := by
+        match r, hb, hlen with
+        | [x], hb, _ => simp at hb; rw [hb]
+        | [], hb, _ => simp at hb
+        | _ :: _ :: _, _, hl => simp at hl
+      subst hr1
+      simp only [List.cons_append, List.nil_append, List.takeWhile, List.dropWhile, ne_eq, not_true_eq_false, decide_false]
+      exact ⟨.nil, Utf8.cons [0x25] p hr hp⟩
+    · have hall : ∀ b ∈ r, (decide (b ≠ 0x25)) = true := by
+        intro b hb
+        simp only [ne_eq, decide_not, Bool.not_eq_eq_eq_not, Bool.not_true, decide_eq_false_iff_not]
+        intro he; subst he; exact hmem hb
+      have ⟨e1, e2⟩ := takeWhile_append_all (fun b => decide (b ≠ 0x25)) r p hall
+      rw [e1, e2]
+      exact ⟨.cons r _ hr ih.1, ih.2⟩
+
+
+
+theorem isDigit_ascii {c : Byte} (h : isDigit c = true) : c < 0x80 := by
+  revert h; revert c; apply byte_forall; decide +kernel
+
+theorem parsenumAux_utf8 (num : Nat) (isnum : Bool) (s : List Byte) (h : Utf8 s) : Utf8 (parsenumAux num isnum s).2.2 := by
+  induction s generalizing num isnum with
+  | nil => simpa [parsenumAux] using h
+  | cons c r ih =>
+    unfold parsenumAux
+    split
+    · rename_i hd
+      split
+      · exact .nil
+      · exact ih _ _ (utf8_tail_ascii h (isDigit_ascii hd))
+    · exact h
+
+theorem parsenum_utf8 (s : List Byte) (h : Utf8 s) : Utf8 (parsenum s).2.2 := parsenumAux_utf8 0 false s h
+
+theorem parseFlags_utf8 (fr : Bool) (st : FState) (s : List Byte) (h : Utf8 s) : Utf8 (parseFlags fr st s).2 := by
+  induction s generalizing st with
+  | nil => simpa [parseFlags] using h
+  | cons c r ih =>
+    unfold parseFlags
+    by_cases h1 : c = 0x23
+    · subst h1; simp only [if_true]; exact ih _ (utf8_tail_ascii h (by decide))
+    · simp only [h1, if_false]
+      by_cases h2 : c = 0x30
+      · subst h2; simp only [if_true]; exact ih _ (utf8_tail_ascii h (by decide))
+      · simp only [h2, if_false]
+        by_cases h3 : c = 0x2B
+        · subst h3; simp only [if_true]; exact ih _ (utf8_tail_ascii h (by decide))
+        · simp only [h3, if_false]
+          by_cases h4 : c = 0x2D
+          · subst h4; simp only [if_true]; exact ih _ (utf8_tail_ascii h (by decide))
+          · simp only [h4, if_false]
+            by_cases h5 : c = 0x20
+            · subst h5; simp only [if_true]; exact ih _ (utf8_tail_ascii h (by decide))
+            · simp only [h5, if_false]; exact h
+
+theorem scanBracket_spec : ∀ (r : List Byte) (n : Nat) (inner : List Byte) (k : Nat), scanBracket r n = some (inner, k) →
+    ∃ r', r = inner ++ 0x5D :: r' ∧ k = n + inner.length + 1 := by
+  intro r
+  induction r with
+  | nil => intro n inner k h; simp [scanBracket] at h
+  | cons c t ih =>
+    intro n inner k h
+    unfold scanBracket at h
+    split at h
+    · rename_i hc
+      simp only [Option.some.injEq, Prod.mk.injEq] at h
+      obtain ⟨rfl, rfl⟩ := h
+      exact ⟨t, by simp [hc], by simp⟩
+    · split at h
+      · rename_i inner' k' heq
+        simp only [Option.some.injEq, Prod.mk.injEq] at h
+        obtain ⟨rfl, rfl⟩ := h
+        obtain ⟨r', e1, e2⟩ := ih (n + 1) inner' k' heq
+        exact ⟨r', by simp [e1], by simp [e2]; omega⟩
+      · cases h
+
+theorem argNumber_utf8 (p : PP) (k : Nat) (f : List Byte) (n : Nat) (h : Utf8 f) : Utf8 (argNumber p k f n).2.2.1 := by
+  unfold argNumber
+  split
+  · rename_i rest
+    have htail : Utf8 rest := utf8_tail_ascii h (by decide)
+    have hdrop1 : (0x5B :: rest : List Byte).drop 1 = rest := rfl
+    dsimp only
+    by_cases hl : (0x5B :: rest : List Byte).length < 3
+    · simp only [hl, if_true]
+      exact htail
+    · simp only [hl, if_false]
+      cases hs : scanBracket ((0x5B :: rest : List Byte).drop 1) 1 with
+      | none => simp only; exact htail
+      | some ic =>
+        obtain ⟨inner, c⟩ := ic
+        obtain ⟨r', e1, e2⟩ := scanBracket_spec _ _ _ _ hs
+        rw [hdrop1] at e1
+        have hdrop : (0x5B :: rest : List Byte).drop c = r' := by
+          rw [e1, e2]
+          have : 1 + inner.length + 1 = (0x5B :: inner ++ [0x5D]).length := by simp; omega
+          rw [this]
+          have : (0x5B :: (inner ++ 0x5D :: r') : List Byte) = (0x5B :: inner ++ [0x5D]) ++ r' := by simp
+          rw [this, List.drop_left]
+        have hr' : Utf8 r' := utf8_after_ascii _ h (0x5B :: inner) 0x5D r' (by rw [e1]; simp) (by decide)
+        simp only
+        generalize parsenum inner = pn
+        obtain ⟨width, ok, rem⟩ := pn
+        dsimp only
+        repeat' split
+        all_goals (rw [hdrop]; exact hr')
+  · exact h
+
+theorem widthStage_utf8 (p : PP) (args : List Val) (k : Nat) (r : List Byte) (ai : Bool) (h : Utf8 r) :
+    Utf8 (widthStage p args k r ai).2.2.1 := by
+  unfold widthStage
+  split
+  · exact utf8_tail_ascii h (by decide)
+  · exact parsenum_utf8 _ h
+
+theorem precStage_utf8 (p : PP) (args : List Val) (k : Nat) (r : List Byte) (ai : Bool) (h : Utf8 r) :
+    Utf8 (precStage p args k r ai).2.2.1 := by
+  unfold precStage
+  split
+  · rename_i c r''
+    dsimp only
+    have h0 : Utf8 (c :: r'') := utf8_tail_ascii h (by decide)
+    have h1 := argNumber_utf8 (if ai = true then { p with goodArgNum := false } else p) k (c :: r'') args.length h0
+    generalize argNumber (if ai = true then { p with goodArgNum := false } else p) k (c :: r'') args.length = an at h1
+    obtain ⟨py, ky, ry, aiy⟩ := an
+    dsimp only at h1 ⊢
+    split
+    · rename_i r3
+      exact utf8_tail_ascii h1 (by decide)
+    · exact parsenum_utf8 _ h1
+  · exact h
+
+
+/-- A clean format: valid UTF-8. -/
+def FmtCl (f : List Byte) : Prop := Utf8 f
+
+theorem FmtCl.lit {f : List Byte} (h : FmtCl f) : EndsRune (f.takeWhile (· ≠ 0x25)) := endsRune_of_utf8 (utf8_split_percent f h).1
 
 /-! ### Clean values -/
 
@@ -759,6 +1062,19 @@ theorem kstep_finishPrintf (he : EnvCl env) (K : KSpec env n) : ∀ p args k, CI
   unfold finishPrintf
   kmono
 
+theorem dropWhile_head {α : Type} (pr : α → Bool) : ∀ (l : List α) (c : α) (r : List α), l.dropWhile pr = c :: r → pr c = false := by
+  intro l
+  induction l with
+  | nil => intro c r h; simp at h
+  | cons x xs ih =>
+    intro c r h
+    simp only [List.dropWhile] at h
+    split at h
+    · exact ih c r h
+    · rename_i hx
+      simp only [List.cons.injEq] at h
+      rw [← h.1]; simpa using hx
+
 theorem kstep_fmtLoop (he : EnvCl env) (K : KSpec env n) : ∀ p f args k ai, CI p → FmtCl f → ListCl args →
     CR (fmtLoop env (n + 1) p f args k ai) := by
   intro p f args k ai hp hf hv
@@ -772,23 +1088,29 @@ theorem kstep_fmtLoop (he : EnvCl env) (K : KSpec env n) : ∀ p f args k ai, CI
     · exact h0.w hf.lit
   generalize (if (f.takeWhile (· ≠ 0x25)).isEmpty = true then ({ p with goodArgNum := true } : PP)
       else ({ p with goodArgNum := true } : PP).w (f.takeWhile (· ≠ 0x25))) = p1 at h1 ⊢
-  have hrest : f.dropWhile (· ≠ 0x25) <:+ f := List.dropWhile_suffix _
+  have hrest : Utf8 (f.dropWhile (· ≠ 0x25)) := (utf8_split_percent f hf).2
   split
   · exact K.finishPrintf _ _ _ h1 hv
   · rename_i c r0 heq
-    have hr0 : r0 <:+ f := List.IsSuffix.trans (List.suffix_cons _ _) (heq ▸ hrest)
-    have hpf := parseFlags_suffix true {} r0
+    -- the byte dropWhile stopped at is `%`
+    have hc : c = 0x25 := by
+      have := dropWhile_head (fun x => decide (x ≠ 0x25)) f c r0 heq
+      simpa using this
+    have hr0 : Utf8 r0 := by rw [heq] at hrest; exact utf8_tail_ascii hrest (by rw [hc]; decide)
+    have hpf := parseFlags_utf8 true {} r0 hr0
     generalize parseFlags true {} r0 = pf at hpf
     obtain ⟨fs, r1⟩ := pf
     dsimp only at hpf ⊢
-    have hr1 : r1 <:+ f := List.IsSuffix.trans hpf hr0
     have h2 : CI ({ { p1 with f := p1.f.clear } with f := { p1.f.clear with plus := fs.plus, minus := fs.minus, sharp := fs.sharp, space := fs.space, zero := fs.zero } } : PP) :=
       ⟨h1.clean, h1.mode⟩
     split
     · rename_i c2 r2
-      have hr2 : r2 <:+ f := List.IsSuffix.trans (List.suffix_cons _ _) hr1
       split
-      · split
+      · rename_i hfast
+        have hr2 : Utf8 r2 := utf8_tail_ascii hpf (by
+          have := hfast.2.1
+          exact Nat.lt_of_le_of_lt (UInt8.le_iff_toNat_le.mp this) (by decide))
+        split
         · rename_i a ha2
           have hva := listCl_get hv ha2
           apply cr_bind
@@ -797,13 +1119,13 @@ theorem kstep_fmtLoop (he : EnvCl env) (K : KSpec env n) : ∀ p f args k ai, CI
             · exact ⟨h2.clean, h2.mode⟩
             · exact h2
           · intro q hq
-            exact K.fmtLoop _ _ _ _ _ hq (hf.suffix hr2) hv
+            exact K.fmtLoop _ _ _ _ _ hq hr2 hv
         · apply cr_ok
           split
           · exact ⟨h2.clean, h2.mode⟩
           · exact h2
-      · exact K.directiveTail _ _ _ _ _ h2 (hf.suffix hr1) hv
-    · exact K.directiveTail _ _ _ _ _ h2 (hf.suffix hr1) hv
+      · exact K.directiveTail _ _ _ _ _ h2 hpf hv
+    · exact K.directiveTail _ _ _ _ _ h2 hpf hv
 
 theorem kstep_directiveTail (he : EnvCl env) (K : KSpec env n) : ∀ p f args k ai, CI p → FmtCl f → ListCl args →
     CR (directiveTail env (n + 1) p f args k ai) := by
@@ -811,38 +1133,35 @@ theorem kstep_directiveTail (he : EnvCl env) (K : KSpec env n) : ∀ p f args k 
   unfold directiveTail
   dsimp only
   have c1 := argNumber_ci hp k f args.length
-  have s1 := argNumber_suffix p k f args.length
+  have s1 := argNumber_utf8 p k f args.length hf
   generalize argNumber p k f args.length = an at c1 s1
   obtain ⟨p1, k1, r1, ai1⟩ := an
   dsimp only at c1 s1 ⊢
   have c2 := widthStage_ci c1 args k1 r1 ai1
-  have s2 := widthStage_suffix p1 args k1 r1 ai1
+  have s2 := widthStage_utf8 p1 args k1 r1 ai1 s1
   generalize widthStage p1 args k1 r1 ai1 = ws at c2 s2
   obtain ⟨p2, k2, r2, ai2⟩ := ws
   dsimp only at c2 s2 ⊢
   have c3 := precStage_ci c2 args k2 r2 ai2
-  have s3 := precStage_suffix p2 args k2 r2 ai2
+  have s3 := precStage_utf8 p2 args k2 r2 ai2 s2
   generalize precStage p2 args k2 r2 ai2 = ps at c3 s3
   obtain ⟨p3, k3, r3, ai3⟩ := ps
   dsimp only at c3 s3 ⊢
-  have hr3 : r3 <:+ f := List.IsSuffix.trans s3 (List.IsSuffix.trans s2 s1)
   have c4 : CI (if (!ai3) = true then argNumber p3 k3 r3 args.length else (p3, k3, r3, ai3)).1 := by
     split
     · exact argNumber_ci c3 _ _ _
     · exact c3
-  have s4 : (if (!ai3) = true then argNumber p3 k3 r3 args.length else (p3, k3, r3, ai3)).2.2.1 <:+ r3 := by
+  have s4 : Utf8 (if (!ai3) = true then argNumber p3 k3 r3 args.length else (p3, k3, r3, ai3)).2.2.1 := by
     split
-    · exact argNumber_suffix _ _ _ _
-    · exact List.suffix_refl _
+    · exact argNumber_utf8 _ _ _ _ s3
+    · exact s3
   generalize (if (!ai3) = true then argNumber p3 k3 r3 args.length else (p3, k3, r3, ai3)) = an4 at c4 s4
   obtain ⟨p4, k4, r4, ai4⟩ := an4
   dsimp only at c4 s4 ⊢
-  have hr4 : r4 <:+ f := List.IsSuffix.trans s4 hr3
   split
   · exact .ok (c4.wa (asc_of_all (by decide)))
   · rename_i verb r' hdv
-    have hr' : r' <:+ f := List.IsSuffix.trans (decodeVerb_suffix _ _ _ hdv) hr4
-    have hf' := hf.suffix hr'
+    have hf' : FmtCl r' := decodeVerb_utf8 _ s4 _ _ hdv
     have wbang : CI ((p4.w percentBang).wr verb) := (c4.wa (asc_of_all (by decide))).wr _
     split
     · exact K.fmtLoop _ _ _ _ _ (c4.wb (by decide)) hf' hv
